@@ -44,6 +44,11 @@ func (k Keeper) CalculateBaseFee(ctx sdk.Context) sdkmath.Int {
 		})
 	}
 
+	// The base fee is stored as a 256-bit integer, saturate instead of overflow (panic).
+	if nextBaseFee.BitLen() > sdkmath.MaxBitLen {
+		nextBaseFee = new(big.Int).Sub(new(big.Int).Lsh(big.NewInt(1), sdkmath.MaxBitLen), big.NewInt(1))
+	}
+
 	// Set global min gas price as lower bound of the base fee, transactions below
 	// the min gas price don't even reach the mempool.
 	minGasPrice := params.MinGasPrice.TruncateInt().BigInt()
